@@ -30,6 +30,8 @@ TYPABLE = [
     "C{[>][<]CC([>])c1ccccc1, [<]CC([>])C(=O)OC [<]}|uniform(100, 400)|[H]",
     "{[][$]C([$])C=O; [$][H], [$]C[]}|uniform(20, 120)|",   # aldehyde side group: may be only partially typable
     "CS{[>][<]CC[>][<]}|uniform(20,60)|C",
+    # isotope labels: the parameter set follows the ELEMENT (12.011 for 13C), whatever the atom order
+    "CC{[>][<]CC[>][<]}|uniform(20, 90)|[13CH3]", "[13CH3]C{[>][<]CC[>][<]}|uniform(20, 90)|C", "CC(C)[13CH3]", "[13CH3]C(C)C", "CC[13CH2]O",
 ]
 ELEMENT_MASS = {1: 1.008, 6: 12.011, 7: 14.007, 8: 15.999, 9: 18.998, 16: 32.06, 17: 35.45, 35: 79.904, 53: 126.90, 14: 28.086, 15: 30.974}
 
